@@ -36,12 +36,12 @@ func (q *queue) push(entry any) (droppedEvent any) {
 		pos = 0
 	}
 	if pos == q.head {
-		// drop the entry at the head of the queue
+		// drop the entry at the head of the queue: it is the oldest one and is overwritten below
+		droppedEvent = q.entries[q.head]
 		q.head++
 		if q.head == len(q.entries) {
 			q.head = 0
 		}
-		droppedEvent = q.entries[q.head]
 	}
 	q.entries[pos] = entry
 	q.tail = pos
